@@ -148,6 +148,31 @@ def binding_case(args):
                                           % (combo, binding_names, fra.arg_hash[:12], want_hash[:12], fra.effective_kwargs), art))
                 return out
             pf(*pargs, **pkw)
+        # A partial application must not be affected by other partials derived from it: derive (and
+        # discard) a sibling that binds / overrides further parameters, then finish the original.
+        if not out["violations"] and len(params) >= 2:
+            for first in params:
+                if first in kwonly and fname == "fkw":
+                    continue
+                p1 = f.partial(**{first: binding[first]})
+                rest = [p for p in params if p != first]
+                other = {p: "sibling-%s" % p for p in rest}
+                other[first] = "sibling-override"
+                p1.partial(**other)  # sibling, discarded
+                out["evaluations"] += 1
+                out["transitions"] += 1
+                try:
+                    pos = [p for p in rest if p not in kwonly]
+                    kws = [p for p in rest if p in kwonly]
+                    fra = p1.fn_reference().with_args(*[binding[p] for p in pos], **{p: binding[p] for p in kws})
+                    h = fra.arg_hash
+                except Exception as e:
+                    h = "EXC:%r" % (e,)
+                if h != want_hash:
+                    out["violations"].append(("%s|partial-affected-by-derived-partial" % fname,
+                                              "p1 = f.partial(%s=...); p1.partial(...) (discarded); p1(rest) hashes to %s, expected %s"
+                                              % (first, h[:12], want_hash[:12]), art))
+                    return out
         bodies = audit.bodies()
         if len(hashes) != 1:
             out["violations"].append(("%s|presentations-disagree" % fname, "presentations of %s give %d hashes" % (binding_names, len(hashes)), art))
